@@ -16,12 +16,12 @@ ID = "C11"
 CASES = {"quick": 4000, "thorough": 50000}
 FLOOR = {"quick": 3500, "thorough": 45000}
 FLOOR_COUNTERS = {
-    "quick": {"rejected_calls_in_the_history": 2000, "numpy_scalar_parameters": 500, "fits_judged": 3500, "replication_pairs": 700, "rejections_judged": 3000, "zero_weight_fits": 300, "estimators_with_a_past": 5000, "block_boundary_sizes": 60, "fits_through_fit_transform": 900, "configured_not_by_constructor": 1500, "non_default_containers": 1500},
-    "thorough": {"rejected_calls_in_the_history": 25000, "numpy_scalar_parameters": 6000, "fits_judged": 45000, "replication_pairs": 9000, "rejections_judged": 40000, "zero_weight_fits": 4000, "estimators_with_a_past": 60000, "block_boundary_sizes": 800, "fits_through_fit_transform": 12000, "configured_not_by_constructor": 20000, "non_default_containers": 20000},
+    "quick": {"weights_in_other_units": 600, "rejected_calls_in_the_history": 2000, "numpy_scalar_parameters": 500, "fits_judged": 3500, "replication_pairs": 700, "rejections_judged": 3000, "zero_weight_fits": 300, "estimators_with_a_past": 5000, "block_boundary_sizes": 60, "fits_through_fit_transform": 900, "configured_not_by_constructor": 1500, "non_default_containers": 1500},
+    "thorough": {"weights_in_other_units": 7000, "rejected_calls_in_the_history": 25000, "numpy_scalar_parameters": 6000, "fits_judged": 45000, "replication_pairs": 9000, "rejections_judged": 40000, "zero_weight_fits": 4000, "estimators_with_a_past": 60000, "block_boundary_sizes": 800, "fits_through_fit_transform": 12000, "configured_not_by_constructor": 20000, "non_default_containers": 20000},
 }
 RULE = (
     "case = X (n>=2, 1-10 columns, column scales 1e-3..1e3, offsets up to 1e3), the 8 with_mean/with_std/column_wise "
-    "combinations, weights None/uniform/random/integer multiplicities/integer with zeros, new data; relations: weighted "
+    "combinations, weights None/uniform/random/integer multiplicities/integer with zeros (30%: handed over in another unit, 2^-70..2^49), new data; relations: weighted "
     "moments of the transformed data, inverse round trip, integer weights == row replication, StandardScaler, shift and "
     "rescaling invariance, tolerance-based rejection just below / acceptance 10x above; in 40% of the cases every scaler has a "
     "past (weighted fit on other data with the same number of rows, other flags, then set_params). non-trivial = weighted or "
@@ -70,6 +70,7 @@ def gen(rng, tier, index):
         "npscalars": bool(rng.random() < 0.3),
         "past": bool(rng.random() < 0.4),  # the scaler object has been fitted before (other data, weights, flags)
         "pseed": int(rng.integers(1 << 30)),
+        "wunit": float(2.0 ** int(rng.integers(-70, 50))) if rng.random() < 0.3 else 1.0,
     }
 
 
@@ -87,6 +88,11 @@ def run(case, j):
     from skmatter.preprocessing import StandardFlexibleScaler as SFS
 
     X, w, Z = case["X"], case["w"], case["Z"]
+    # the weights the library sees: the same distribution in another unit (an exact power of two: unnormalised Boltzmann
+    # factors are tiny, counts are huge); the oracle keeps the plain ones - only ratios of weights matter
+    wl = None if w is None else w * float(case.get("wunit", 1.0))
+    if wl is not None and case.get("wunit", 1.0) != 1.0:
+        j.note("weights_in_other_units")
     wm, ws, cw = case["with_mean"], case["with_std"], case["column_wise"]
     n, m = X.shape
     j.tag(f"flags:mean={wm},std={ws},colwise={cw}", f"weights:{case['wkind']}")
@@ -132,10 +138,10 @@ def run(case, j):
     if case.get("xform", "C") != "C":
         j.note("non_default_containers")
     if via == "fit_transform":
-        Tft = np.asarray(j.lib("fit_transform", est.fit_transform, Xin, sample_weight=None if w is None else w.copy()))
+        Tft = np.asarray(j.lib("fit_transform", est.fit_transform, Xin, sample_weight=None if wl is None else wl.copy()))
         j.note("fits_through_fit_transform")
     else:
-        j.lib("fit", est.fit, Xin, sample_weight=None if w is None else w.copy())
+        j.lib("fit", est.fit, Xin, sample_weight=None if wl is None else wl.copy())
     j.note("fits_judged")
     est = forms.carry(est, case.get("carry", "same"), j)  # what transforms afterwards may be a copy of what was fitted
     if case.get("reject"):
@@ -187,14 +193,14 @@ def run(case, j):
         j.note("standardscaler_pairs")
     # invariances
     if wm:
-        e3 = scaler('shift').fit(X + case["shift"], sample_weight=None if w is None else w.copy())
+        e3 = scaler('shift').fit(X + case["shift"], sample_weight=None if wl is None else wl.copy())
         T3 = e3.transform(X + case["shift"])
         amp3 = (np.abs(mu0 + case["shift"]) + sd0) / sd0
         rel3 = 1e-9 + 200 * np.finfo(float).eps * float(max(amp.max(), amp3.max()))
         j.close("transformed data unchanged by a prior shift of the input", T3, T, rel3 * (np.abs(T) + amp + amp3) * (1 if ws else np.abs(X).max() + np.abs(case["shift"]).max() + 1))
     if ws:
         c = case["c"]
-        e4 = scaler('scale', atol=0.0).fit(c * X, sample_weight=None if w is None else w.copy())
+        e4 = scaler('scale', atol=0.0).fit(c * X, sample_weight=None if wl is None else wl.copy())
         T4 = e4.transform(c * X)
         # two independent fits: the scale carries a relative rounding error of about eps x (offset / spread)
         rel = 1e-9 + 200 * np.finfo(float).eps * float(amp.max())
@@ -212,12 +218,12 @@ def run(case, j):
             if not cw and mode == "rtol":
                 pass
             try:
-                enter(scaler('hi', **hi), X, sample_weight=None if w is None else w.copy())
+                enter(scaler('hi', **hi), X, sample_weight=None if wl is None else wl.copy())
                 j.ok(f"variance below the {mode} tolerance is rejected", False, {"var": v[i], "tol": hi})
             except ValueError:
                 j.ok(f"variance below the {mode} tolerance is rejected", True)
             try:
-                enter(scaler('lo', **lo), X, sample_weight=None if w is None else w.copy())
+                enter(scaler('lo', **lo), X, sample_weight=None if wl is None else wl.copy())
                 j.ok(f"variance 10x above the {mode} tolerance is accepted", True)
             except ValueError as e:
                 # in column-wise mode another column may legitimately fall below its own rtol threshold
